@@ -25,8 +25,13 @@ CHECKS = {
             "oracle, the writing half by an independent SubRip decoder written in the harness.",
             "Rocq proof over a Gallina model of the SubRip reader, writer and markup parser + extracted-model differential correspondence",
             "golang.org/x/net/html's tokenizer is modelled on the fragment html_simple (tags b/i/u/font with a color attribute, text, "
-            "comments; see Kit/Html.v) - outside it only the Ok/Err/Panic class is compared; bufio.Scanner is modelled by Kit/Scan.v "
-            "(C17); rendering-tolerance theorems beyond EOL are not all proved yet (oracle + correspondence only)."),
+            "comments; see Kit/Html.v); the representability predicates imply html_simple for every line the theorems talk about "
+            "(C01_*_in_faithful_domain; colours without '&'/CR/NUL, no raw-text elements in raw lines - each exclusion shown necessary by "
+            "a computed counter-example, C01_needs_*), outside it the harness compares only the Ok/Err/Panic class; the reading of every "
+            "tolerated rendering is proved (C01_read_rendered, C01_read_rendered_raw); the writer's output is one of those renderings "
+            "(C01_write_is_rendering), so the denotation of the reading theorem is a Coq-side decoder independent of the reader "
+            "(C01_write_denotes); checked models with explicit panic sites agree with the models (C01_checked_*); bufio.Scanner is "
+            "modelled by Kit/Scan.v (C17); details and the panic-site table in notes/C01.md."),
     "C12": (True,
             "Theorems for all cue lists and all definition maps (no size bound): Order is a sorted, stable permutation and "
             "any stable sort yields the model's result; Merge's cues are the stable ordered union, its definitions the union "
@@ -153,7 +158,11 @@ CHECKS = {
             "writer; the SSA/ASS reader and writer (any document value, any map order); the EBU STL reader on any byte string in one "
             "shot or under any block schedule and writer on any metadata / cue list / clock; the TTML reader on any XML tree (and on any "
             "bytes through the XML parser model) and writer on any document value; the teletext reader on any delivered list of PES "
-            "payloads of arbitrary bytes; the cue-list operations are total functions. Tie and the rest of the quantifier on the "
+            "payloads of arbitrary bytes; the cue-list operations are total functions. For SubRip and WebVTT the totality is "
+            "stated on CHECKED models (Model/SrtC.v, VttC.v, DurC.v: every Go index / slice / pointer dereference is an explicit checked "
+            "access behind the code's own guard, Panic otherwise; proved equal to the pattern-matching models and never to Panic: "
+            "C08_*_checked_*; removing a guard makes Panic reachable: C08_unguarded_index_panics) and those checked models are what the "
+            "correspondence suites run. Tie and the rest of the quantifier on the "
             "implementation: every reader (all option values, and the extension-dispatching opener) on valid documents, structure-aware "
             "mutations/truncations/splices, wrong-format documents, random bytes, transport streams with malformed PES payloads / data "
             "units / teletext packets inside a valid packet layer (the teletext model is value-compared on the hostile payloads); every "
@@ -192,7 +201,8 @@ CHECKS = {
             "Rocq proof of the dispatch model, of every codec pair through the plain view with operation sequences in between, and of the styled SubRip/WebVTT conversions + byte-level correspondence of the composed models + conversion matrix through file API and CLI on the implementation",
             "partial: for styled cues the pairwise theorems exist for the SubRip/WebVTT pairs only (what crosses between other formats "
             "for styled cues - attribute propagation, inherited metadata - is decided by the matrix oracle on the implementation); "
-            "teletext sources are decided on the implementation; the "
+            "teletext as a source is covered at the level of the delivered PES payloads (C07_ttx_plain_source: the teletext reader model "
+            "is plain-faithful for G0 text; the library's ts -> {srt, vtt, ssa, stl, ttml} bytes equal the model's); the "
             "operation-sequence theorems go through Kit/Float64.v (linear correction), hence the standard-library Reals axioms that Flocq "
             "brings in (listed in the evidence); the content tag of Model/ConvOps.v (source index carried in the style-pointer field, which "
             "the SubRip/WebVTT readers never set) is a modelling device checked by the byte comparison; coloured "
@@ -212,7 +222,14 @@ CHECKS = {
             "name-space prefixes and attribute order are irrelevant; the five language codes with any subtag; write->read round trip for "
             "every representable document and every white-space indent option, at tree level and THROUGH BYTES (the Coq parser inverts "
             "the byte-level writer model for every document value); reader and writer never panic; the writer refuses exactly the empty "
-            "list. Tie: extracted reader model vs ReadFromTTML on ground-truth documents x renderings (every boundary in any equivalent "
+            "list; the COMPOSITE reading theorem C03_read_rendered: for every ground-truth document (cues with exact-fraction boundaries, "
+            "styles with arbitrary parent links, regions, metadata, the five languages, rates) and every rendering (each boundary in any "
+            "time-expression syntax, attribute order, name-space assignment, character data between structural elements, section "
+            "orders, br placement, indentation) the reader returns what the document denotes with every boundary within the stated "
+            "instant tolerance - also THROUGH BYTES (C03_read_rendered_bytes) with an XML parser model covering prolog, both quote "
+            "styles, self-closing tags, entities and character references, comments (C03_parse2_print2), compared per case with "
+            "encoding/xml on rendered documents; each side condition outside the quantifier has a computed counter-example replayed on "
+            "the library. Tie: extracted reader model vs ReadFromTTML on ground-truth documents x renderings (every boundary in any equivalent "
             "time syntax, indentation, br placement, prefixes) parsed into the tree by the harness's own encoding/xml loop; time "
             "expressions through a hook on exhaustive and boundary grids; WriteToTTML bytes = the model's bytes for every indent option; "
             "the Coq XML parser vs encoding/xml on the library's output; oracles: exact rational instants, an independent "
@@ -262,7 +279,13 @@ CHECKS = {
             "teletext row parser (runs, texts, italic/underline/box flags), document-level write->read for every representable document "
             "under every display standard (times, lines, vertical position, justification, every metadata field), the reader's structure "
             "on ANY file of a GSI block plus 128-byte blocks (one cue per non-user-data block, in order, timecode minus programme start "
-            "unless ignored), short files are errors, reader and writer never panic. Tie: extracted model vs the implementation on "
+            "unless ignored), short files are errors, reader and writer never panic; the READING half for every rendering "
+            "(C05_read_rendered, every display standard, both values of the ignore option): GSI numbers zero- or blank-padded, blank "
+            "dates/timecodes, arbitrary spare bytes, user-data blocks anywhere, arbitrary SGN/SN/CS/CF/EBN bytes, any four timecode "
+            "bytes, rows with ANY sequence of style codes (redundant, repeated, unclosed), floating diacritics, undefined bytes, 0x8F "
+            "padding - the reader returns what the file denotes; the teletext-standard rows rest on the row model shared with the "
+            "teletext reader (C05_teletext_row_is_shared_model); side conditions shown necessary by computed counter-examples replayed "
+            "on the library. Tie: extracted model vs the implementation on "
             "generated binaries x the ignore-programme-start option, writer bytes, and field-level suites through hooks (GSI/TTI codecs, "
             "text codec, row parsers, normalisation); oracles on the implementation: ground-truth files (GSI values, 25/30 fps, display "
             "standards 0/1/2, programme start, every timecode, the full Latin table incl. all diacritic x letter pairs, style code "
@@ -272,8 +295,7 @@ CHECKS = {
             "known finding (KNOWN-FINDING line, exit 0): WriteToSTL writes '$' as 0x24, which the Latin table and the library's own reader "
             "define as the currency sign; the byte is pinned by the golden file testdata/example-opn-out.stl, so it cannot be repaired "
             "with the test suite unedited; matched only when every differing character is '$' read back as the currency sign. "
-            "norm.NFD/NFC on the repertoire = the generated tables (validated by the encode/decode suites); reader fidelity on arbitrary "
-            "renderings of a ground-truth file (style codes in any order, omitted closing codes) is by oracle + correspondence only; "
+            "norm.NFD/NFC on the repertoire = the generated tables (validated by the encode/decode suites); "
             "every theorem of Properties/C05.v is closed under the global context."),
     "C06": (True,
             "Theorems about a Gallina model of the teletext reader from the delivered PES payloads on (page buffer, character decoder, "
@@ -285,7 +307,9 @@ CHECKS = {
             "entry of teletextCharsets; unit, packet, header and row codecs round-trip for ALL values; and the stream-level statement: for "
             "EVERY ground-truth page schedule, EVERY multiplexing in the decidable class mux_ok (stuffing / non-subtitle / wrong-framing / "
             "short units, uncorrectable addresses and corrected single-bit Hamming errors, rows and pages of other magazines in parallel "
-            "mode, X/26 X/27 X/30 X/31, inert or default-designation X/28 and M/29, time-filling headers, terminators, erase pages) and ANY "
+            "mode, X/26 X/27 X/30 X/31, X/28 and M/29 character-set designation packets with their exact semantics - the last designation "
+            "received applies to every page -, rows with parity-damaged cells - a failing byte contributes no text -, PES packets without "
+            "time / with another data identifier / empty / with a truncated last unit, time-filling headers, terminators, erase pages) and ANY "
             "grouping of the units into PES packets, the reader returns exactly cues_of(schedule) - one cue per non-empty instance, start = "
             "time of the PES that began it, end = that of the next instance or the last time, relative to the first, rows in row order "
             "decoded in the page's national set, runs split at colour/size codes - with the page given or auto-detected by the subtitle "
@@ -298,8 +322,8 @@ CHECKS = {
             "the third-party demultiplexer (astits) is not modelled: 'astits delivers, for the selected PID, the PES payloads with their "
             "PTS/PCR times and the PMT descriptors as the muxer wrote them' is a named contract, exercised only by the TS-level oracle "
             "suites; PES-level noise (no time, other identifier, empty payload, truncated last unit) and PID detection are harness-only; "
-            "non-default X/28-M/29 designations and parity-failing cells inside rows are modelled and value-compared but outside the "
-            "stream theorem's class (the reasons are in notes/C06.md); every theorem of Properties/C06.v is closed under the global context."),
+            "attributes or a start box after the end box, repeated rows in one instance and a row whose only start box is destroyed by a "
+            "parity error are modelled and value-compared but outside the stream theorem's class (notes/C06.md); every theorem of Properties/C06.v is closed under the global context."),
     "C20": (True,
             "Theorems: (i) frame property - in an interleaving semantics where steps only read the shared store, every thread ends, under "
             "ANY schedule, in the state it reaches alone; (ii) instance - the write-effect summary regenerated on every run from the go/ssa "
@@ -335,7 +359,11 @@ CHECKS = {
             "decoder and the reader for the writer (consecutive numbering, regions defined before use).",
             "Rocq proof over a Gallina codec model + extracted-model differential correspondence + independent decoder",
             "representability side conditions are those of repr_vdoc/repr_vline (Proofs/VttDoc.v, VttLine.v), each with its reason and a "
-            "computed counter-example in notes/C02.md / Proofs/VttNeeds.v; x/net/html tokenizer and the two regular "
+            "computed counter-example in notes/C02.md / Proofs/VttNeeds.v; they imply the tokenizer model's faithful domain for every line "
+            "the theorems talk about (C02_*_in_faithful_domain: no raw-text element names, no '&'/CR in annotations, no NUL); the writer's "
+            "output is one of the renderings of C02_read_rendered (C02_write_is_rendering, C02_write_denotes: a Coq-side decoder "
+            "independent of the reader); checked models with explicit panic sites agree with the models (C02_checked_*); x/net/html "
+            "tokenizer and the two regular "
             "expressions are hand-written matchers compared with the library inside the faithful domain html_simple/vtt_tag_simple "
             "(outside it only the Ok/Err/Panic class is compared)."),
 }
